@@ -121,8 +121,33 @@ pub fn build_dup(s: &AfSpec, seed: u64) -> AAFramework<usize> {
     Iccma23Reader::default().read(&mut t.as_bytes()).unwrap()
 }
 
+/// padded: the framework plus 35-70 "sink" arguments (labels n+1..) that are only attacked, by arguments of the framework, inside
+/// its components.  By directionality (theorem SinkDirectionality of MCDung) the extensions restricted to the original arguments
+/// and the statuses of the original arguments are those of the original framework for GR, CO, PR, ID, ST -- so the judge can keep
+/// using the small framework while the code works on components of 40-80 arguments (table sizes, bit sets, thresholds).
+pub fn build_padded(s: &AfSpec, seed: u64) -> AAFramework<usize> {
+    let mut rng = StdRng::seed_from_u64(seed ^ 0x9ad);
+    let k = rng.gen_range(35..=70);
+    let labels: Vec<usize> = (1..=s.n + k).collect();
+    let mut af = AAFramework::new_with_argument_set(ArgumentSet::new_with_labels(&labels));
+    let mut atts = s.att.clone();
+    if s.n > 0 {
+        for j in 1..=k {
+            for _ in 0..rng.gen_range(1..=2) {
+                atts.push((rng.gen_range(1..=s.n), s.n + j));
+            }
+        }
+    }
+    atts.shuffle(&mut rng);
+    for (a, b) in &atts {
+        af.new_attack(a, b).unwrap();
+    }
+    af
+}
+
 pub fn build(s: &AfSpec, present: &str, seed: u64) -> AAFramework<usize> {
     match present {
+        "padded" => build_padded(s, seed),
         "compact" => build_compact(s),
         "sparse" => build_sparse(s, seed),
         "dup" => build_dup(s, seed),
